@@ -193,7 +193,12 @@ def run(ctx):
         if isinstance(r.value, ast.Tuple) and len(r.value.elts) == 2:
             lab = r.value.elts[1]
             ldefs = [st.value for st in walk_no_nested(find_adapter) if isinstance(st, ast.Assign) and len(st.targets) == 1 and norm(st.targets[0]) == norm(lab)] if isinstance(lab, ast.Name) else []
-            for v in (ldefs or [lab]):
+            work = list(ldefs or [lab])
+            while work:
+                v = work.pop()
+                if isinstance(v, ast.IfExp):  # 'stream' if MAGIC in head else None
+                    work += [v.body, v.orelse]
+                    continue
                 labels.add(_fold(prog, base, v) if not (isinstance(v, ast.Constant) and v.value is None) else None)
     ctx.check(labels == {"avro", "stream", None}, "R11.2", "find_adapter_for_stream:labels", f"returns adapter labels {labels}", find_adapter, "avro / stream / None")
 
